@@ -45,11 +45,9 @@ Print Assumptions C10_refuted_incoherent_after_entitled_history.
 Theorem C10_refuted_internal_errors :
   grun 100 h_node_gone_env empty_graph h_node_gone_ops = Rer EValueGone /\
   grun 100 h_keyerror_after_root_removed_env empty_graph h_keyerror_after_root_removed_ops = Rer EKey /\
-  grun 100 h_assertion_env empty_graph h_assertion_ops = Rer EAssert /\
-  grun 100 h_unbounded_reexpansion_env empty_graph h_unbounded_reexpansion_ops = Rer EFuel.
+  grun 100 h_assertion_env empty_graph h_assertion_ops = Rer EAssert.
 Proof.
-  split; [exact h_node_gone_ok|]. split; [exact h_keyerror_after_root_removed_ok|].
-  split; [exact h_assertion_ok|exact h_unbounded_reexpansion_ok].
+  split; [exact h_node_gone_ok|]. split; [exact h_keyerror_after_root_removed_ok|exact h_assertion_ok].
 Qed.
 Print Assumptions C10_refuted_internal_errors.
 
@@ -75,3 +73,11 @@ Theorem C10_forward_coherence_is_not_vacuous :
   end = (true, true, false).
 Proof. exact forward_coherence_speaks_about_links. Qed.
 Print Assumptions C10_forward_coherence_is_not_vacuous.
+
+(* (after /repo 668e668) the history that used to re-expand without bound - d-1.0 requires `D[z]==1.*` and
+   `d[x]`: two spellings of its own project whose edge reasons overwrote each other in turn - now returns:
+   the two requirements are reduced to one. *)
+Theorem C10_self_extras_reexpansion_returns :
+  match grun 100 h_unbounded_reexpansion_env empty_graph h_unbounded_reexpansion_ops with Rok _ => true | Rer _ => false end = true.
+Proof. exact h_unbounded_reexpansion_ok. Qed.
+Print Assumptions C10_self_extras_reexpansion_returns.
